@@ -51,6 +51,10 @@ NESTED = ["e.jets.Select(lambda j: f(j, e))", "g(lambda q: q > e)", "e.jets.Sele
 DESIGNED = ["(e.x, e.y)[2]", "(e.x, e.y)[e.i]", "(e.x, e.y)[-1]", "(e.x, e.y)['a']", "(e.x,)[1.5]",
             "{'a': e.x}['b']", "{'a': e.x}.b", "1 if e.x else 's'", "e.x if e.c else (e.y, 1)",
             "(e.x, e.y)[0:1]", "(e.x, e.y)[True]"]
+# subscripts of a dictionary literal whose key is only known at run time: passed through
+DICT_DYNAMIC = ["{'a': e.x}[e.i]", "{'a': e.x}[1:2]", "{'a': e.x}[(e.i, 1)]", "{'a': e.x}[-e.i]",
+                "{'a': e.x, 'b': e.y}[e.k][0]", "({'value': e.id})[1:2]", "{'a': e.x}[f(e)]",
+                "{'not an identifier': e.x}[e.i]"]
 
 
 def expressions(t):
@@ -70,6 +74,7 @@ def expressions(t):
         a, b, c = rng.choice(d2), rng.choice(at), rng.choice(d2)
         out.append(rng.choice(compose(f"({a})", b, f"({c})")))
     out += DESIGNED
+    out += DICT_DYNAMIC
     out += NESTED
     seen = set()
     res = []
